@@ -2,7 +2,7 @@
    Statements only; every proof is `exact <lemma>`. *)
 From Coq Require Import ZArith List Bool Lia.
 From KV.Base Require Import Consts Word.
-From KV.Fec Require Import Gf256 Codec Rs AutoTune Fec FecSpec FecProofs FecProofs2 AutoTuneProofs TuneProofs ConvProofs TuneTheorems RsProofs RsMds.
+From KV.Fec Require Import Gf256 Codec Rs AutoTune Fec FecSpec FecProofs FecProofs2 AutoTuneProofs TuneProofs ConvProofs TuneTheorems RsProofs RsMds RsMdsAll.
 Import ListNotations.
 Local Open Scope Z_scope.
 
@@ -179,9 +179,15 @@ Example c16_example :
   (exists st, dec_new 2 1 = Some st /\ J st /\ Forall (consistent 3 2) (at_window (d_at st))).
 Proof. exact c16_example_lemma. Qed.
 
-(* equal data counts: parity row i of d/p1 is parity row i of d/p2 (by computation for d <= 6,
-   p1 <= p2 <= 4, and for 10/1 vs 10/3), so a receiver with the sender's data count but another
+(* equal data counts: parity row i of d/p1 is parity row i of d/p2 - PROVED for every d, p1 <= p2
+   with d + p2 <= 256 (both are rows of Vandermonde * the same top inverse) - so a receiver with the sender's data count but another
    parity count reconstructs genuine packets from the parity rows it knows *)
+Theorem c16_parity_rows_indep_all :
+  forall d p1 p2 : nat, (0 < d)%nat -> (p1 <= p2)%nat -> (d + p2 <= 256)%nat -> rows_prefix d p1 p2 = true.
+Proof. exact rows_prefix_all. Qed.
+Print Assumptions c16_parity_rows_indep_all.
+
+(* the same fact by computation on small ratios (independent path through vm_compute) *)
 Theorem c16_parity_rows_indep :
   forallb (fun d => forallb (fun p2 => forallb (fun p1 => rows_prefix d p1 p2) (seq 1 p2)) (seq 1 4)) (seq 1 6) = true
   /\ rows_prefix 10 1 3 = true.
